@@ -5,9 +5,9 @@ HERE = os.path.dirname(os.path.dirname(os.path.abspath(__file__)))
 sys.path.insert(0, HERE)
 props = [json.loads(l) for l in open(os.path.join(HERE, "properties.jsonl"))]
 TECH = {
- "C01": "runtime monitoring: recording build callbacks + RNG tap (seeded and adversarial shuffles), stub-multiset conservation oracle over the call log, call histories on one generator object",
+ "C01": "runtime monitoring: recording build callbacks + RNG tap (seeded and adversarial shuffles), stub-multiset conservation oracle over the call log, call histories on one generator object with injected callback faults",
  "C02": "runtime monitoring: recording build/naming callbacks, perfect matching of motif-id groups to callback results, prescribed-name check on every row",
- "C03": "runtime monitoring with exhaustive schedule control: every permutation of every stub list scripted through the RNG tap and compared with an enumerated uniform-bijection law; chi-square on seeded runs",
+ "C03": "runtime monitoring with exhaustive schedule control: every permutation of every stub list scripted through the RNG tap and compared with an enumerated uniform-bijection law; chi-square on seeded runs; RNG-provenance monitor (re-seeding); interference workloads on a shared tap; block-pair mixing table at thousands of stubs",
  "C04": "runtime monitoring: set-level reference conversion, round-trip identities, monitored input graph (no mutation events)",
  "C05": "runtime monitoring: RNG tap observes the raw weighted draw and every stub placement; counting oracle for minimality, chi-square for weights, update histories on one loader object, real downstream consumers",
  "C06": "runtime monitoring: loader tables read back through both construction paths, counting callables, exact rational oracle, chi-square in sampling mode, re-create/update histories",
@@ -15,16 +15,16 @@ TECH = {
  "C08": "runtime monitoring: recount from the cover, sample-and-generate pipeline observed through recording callbacks",
  "C09": "runtime monitoring with schedule exploration: tie-break RNG tap, DFS over the whole tie-break tree (<= 64 leaves), exact-cover / clique / intact-clique oracle, logical progress bound",
  "C10": "runtime monitoring: label algebra by parsing, greedy-maximality against all cliques of a snapshot, scripted orders of the largest cliques, re-cover history after in-place rewiring",
- "C11": "runtime monitoring: monitored input and working graphs (event stream), per-swap settlement at every swap_condition entry against shadow state, signature classifier for the known finding, in-hook DrawSet invariant, logical budgets",
+ "C11": "runtime monitoring: monitored input and working graphs (event stream), per-swap settlement at every swap_condition entry against shadow state, id-independent shape clause on swaps between motifs still as given, signature classifier for the known finding, failpoints at RNG draw sites, logical budgets",
  "C12": "runtime monitoring: every created edge looked up in the target at the next quiescent point; L1 distance before/after with an independent reference extractor; known-finding classifier by workload family",
  "C13": "runtime monitoring: get_ejks hooked on the class, reference extractor from the definition, call histories incl. in-place rewiring between extractions",
  "C14": "runtime monitoring: algebraic identities evaluated in exact rational arithmetic on return values",
  "C15": "runtime monitoring with shadow values: the unmodified method runs on exact polynomials; result compared coefficient by coefficient with a brute-force 2^|E| expectation; cache-size watch over call histories",
  "C16": "runtime monitoring with shadow values (exact polynomials) + independent recurrence / brute-force counts",
  "C17": "runtime monitoring: independent fixed-point solver built on brute-force per-motif expectations, residual check on the internal message table, query histories on one object vs fresh objects",
- "C18": "runtime monitoring: monitored input graph + working-copy event stream + RNG tap give an edge-by-edge verdict per execution; chi-square on stars, two stars and a MultiGraph star",
- "C19": "runtime monitoring: 50-digit closed-form oracle with a tolerance derived from the documented truncation rule; interleaved factory histories",
- "C20": "runtime monitoring: model-based history checker (builtin set), icontract structural invariant on the class, scripted exhaustive draws",
+ "C18": "runtime monitoring: monitored input graph + working-copy event stream + RNG tap give an edge-by-edge verdict per execution; chi-square on stars, two stars and a MultiGraph star; RNG-provenance monitor; interference workloads on a shared tap",
+ "C19": "runtime monitoring: 50-digit closed-form oracle with a tolerance derived from the documented truncation rule; interleaved factory histories with other library features in between; typed and vector degree arguments",
+ "C20": "runtime monitoring: model-based history checker (builtin set) over the public interface, scripted exhaustive draws, sparse observation, copy/pickle continuations, grow-then-shrink histories; the icontract look at the private containers is a diagnostic that only triggers a closing drain-and-refill phase",
 }
 checks, na = [], []
 for p in props:
